@@ -132,7 +132,7 @@ def gen_cases(ctx):
                    "dut_cls": rng.choice(["meshnm", "mesh"])}
     # samples of the other network workloads with this monitor deciding
     k = 0
-    for gen, tag, every in ((c05.gen_cases, "c05", 6), (c13.gen_cases, "c13", 20), (c14.gen_cases, "c14", 16)):
+    for gen, tag, every in ((c05.gen_cases, "c05", 6), (c13.gen_cases, "c13", 20), (c14._gen_cases, "c14", 16)):
         for case in gen(ctx):
             k += 1
             if k % every == 0:
